@@ -407,7 +407,8 @@ MonStep(Hh, B, T, e) ==
   IN
      (IF Has("C03") THEN C03_Step(Hh, B, T, e) ELSE {})
   \cup (IF Has("C09") /\ e.ev = "instr" /\ e.v \in DOMAIN B.veh
-        THEN C09_Rejected(B, T, e.v, e.out) \cup (IF e.out = "invalid" THEN {} ELSE C09_Applied(B, T, e.v, e.nx, e.out))
+        THEN C09_Rejected(B, T, e.v, e.out) \cup C09_Effects(B, T, e.v, e.out)
+             \cup (IF e.out = "invalid" THEN {} ELSE C09_Applied(B, T, e.v, e.nx, e.out))
              \cup (IF e.v \in Hh.instructed THEN {V("C09", "one_instruction_per_vehicle", "vehicle", e.v)} ELSE {})
              \cup (IF e.i \notin SeqToSet(Hh.final) THEN {V("C09", "attempted_is_final", "vehicle", e.v)} ELSE {})
         ELSE {})
